@@ -90,6 +90,8 @@ def gen_newpara(r, ids):
 
 
 def cases(ctx):
+    if ctx.shard == 0:
+        yield {'kind': 'repo-tests'}        # the repository's own tests under K1-K6, as one more workload
     r = ctx.rng('docs')
     for n in range(ctx.size(2600, 220000)):
         if r.random() < .04:
@@ -231,6 +233,9 @@ def run_case(ctx, case):
         kmon.reset()
     except Exception:
         pass
+    if case['kind'] == 'repo-tests':
+        from .. import repotests
+        return repotests.run_repo_tests_under_monitors(ctx, ('K1', 'K2', 'K3', 'K4', 'K5', 'K6'))
     if case['kind'] == 'emptyfile':
         from debian._deb822_repro.parsing import Deb822FileElement
         f = Deb822FileElement.new_empty_file()
